@@ -10,7 +10,7 @@ nondeterministic result sets to primitives.  See DESIGN.md Appendix A.3.
 import itertools
 from collections import deque
 
-from .core import AnalysisBroken, STRIP_CASTS
+from .core import AnalysisBroken, STRIP_CASTS, effective
 
 TOP = None
 MAXSET = 4096
@@ -1009,10 +1009,11 @@ class Engine:
                 if not any((bool(e) if isinstance(e, int) else True) == truth for e in cv):
                     continue
             E2 = Env(self, fn, dict(E.store), dict(E.temps), E.trace)
-            if not self.refine(E2, cond, truth):
+            ec, et = effective(cond, truth)
+            if not self.refine(E2, ec, et):
                 continue
             E2.log('%s: (%s) is %s' % (cond.where, cond.src(), 'true' if truth else 'false'))
-            self.hooks.on_branch(E2, cond, truth)
+            self.hooks.on_branch(E2, ec, et)
             self.transitions += 1
             work.append((s, 0, E2.store, E2.temps, E2.trace))
 
